@@ -498,8 +498,11 @@ func (conn *Conn) send(ctx context.Context) {
 				return
 			}
 		case <-ctx.Done():
-			// control channel closed, bail out
+			// control channel closed, bail out. runLoop does the same, but
+			// it may be stuck in a handler that is waiting for room in
+			// conn.out, so make sure somebody tears the connection down.
 			conn.wg.Done()
+			conn.closeFor(ctx)
 			return
 		}
 	}
